@@ -487,6 +487,51 @@ fn script_psbt(w: &RWorld, sc: &[u8], tap: bool) -> Option<Vec<u8>> {
     Some(psbt.serialize())
 }
 
+/// DIRECTED class (seeded change C11-9 was missed): and_v(v:pk(K0),<hash>(image of preimage 0)) as
+/// witness script / tap leaf, with a `*_preimages` record stored under exactly that image whose VALUE
+/// has length 0, 1, 31, 32, 33, 64 (the script commits to the hash of that value), or 32 under another image; with and without the signatures.
+pub const N_PSBT_HASHPRE: u64 = 4 * 7 * 2 * 2;
+fn hashpre_psbt(w: &RWorld, j: usize) -> Option<Vec<u8>> {
+    use bitcoin::hashes::Hash as _;
+    let (hk, vk, tap, sigs) = (j % 4, (j / 4) % 7, (j / 28) % 2 == 1, (j / 56) % 2 == 0);
+    let pre = w.w.preimages[0];
+    // rust-bitcoin's deserialiser demands hash(value) == key for every preimage record, so the record is
+    // stored under the hash of the (short / long) VALUE and the script commits to exactly that hash;
+    // vk = 4: a well-formed record for ANOTHER image, the script's own image has no record
+    let val: Vec<u8> = match vk {
+        0 => vec![],
+        1 => vec![7],
+        2 => pre[..31].to_vec(),
+        3 => pre.to_vec(),
+        4 => vec![0x55; 32],
+        5 => [&pre[..], &[0u8][..]].concat(),
+        _ => [&pre[..], &pre[..]].concat(),
+    };
+    let committed: &[u8] = if vk == 4 { &pre[..] } else { &val[..] };
+    let img: Vec<u8> = match hk {
+        0 => bitcoin::hashes::sha256::Hash::hash(committed).to_byte_array().to_vec(),
+        1 => bitcoin::hashes::sha256d::Hash::hash(committed).to_byte_array().to_vec(),
+        2 => bitcoin::hashes::hash160::Hash::hash(committed).to_byte_array().to_vec(),
+        _ => bitcoin::hashes::ripemd160::Hash::hash(committed).to_byte_array().to_vec(),
+    };
+    let op = [0xa8u8, 0xaa, 0xa9, 0xa6][hk];
+    let k = w.w.key_bytes(0, tap);
+    let sc: Vec<u8> = [&[k.len() as u8][..], &k, &[0xad, 0x82, 0x01, 0x20, 0x88, op, img.len() as u8], &img, &[0x87]].concat();
+    let mut psbt = Psbt::deserialize(&script_psbt(w, &sc, tap)?).ok()?;
+    let inp = &mut psbt.inputs[0];
+    if !sigs {
+        inp.partial_sigs.clear();
+        inp.tap_script_sigs.clear();
+    }
+    match hk {
+        0 => { inp.sha256_preimages.insert(bitcoin::hashes::sha256::Hash::hash(&val), val); }
+        1 => { inp.hash256_preimages.insert(bitcoin::hashes::sha256d::Hash::hash(&val), val); }
+        2 => { inp.hash160_preimages.insert(bitcoin::hashes::hash160::Hash::hash(&val), val); }
+        _ => { inp.ripemd160_preimages.insert(bitcoin::hashes::ripemd160::Hash::hash(&val), val); }
+    }
+    Some(psbt.serialize())
+}
+
 pub const N_PSBT_PKH: u64 = 2 * 4 * 3 * 2; // uncompressed key x script form x wrapping x in bip32_derivation?
 /// the minimised PSBT of the thorough-tier finding (regen 1:92935), kept as a regression input
 const CORPUS_PKLEN: &str = include_str!("corpus_psbt_pklen.hex");
@@ -526,6 +571,12 @@ pub fn g_psbt(w: &RWorld, rng: &mut Rng, _idx: u64) -> (Input, &'static str) {
         let j = (_idx - rp_base) as usize;
         if let Some(b) = rawpkh_psbt(w, j % SAT_RAWPKH_SHAPES.len(), SAT_RAWPKH_MASKS[j / SAT_RAWPKH_SHAPES.len()]) {
             return (Input::Psbt { psbt: b, idx: 0, desc: String::new() }, "rawpkh-unresolved-under-d-child");
+        }
+    }
+    let hp_base = rp_base + n_rp;
+    if _idx >= hp_base && _idx < hp_base + N_PSBT_HASHPRE {
+        if let Some(b) = hashpre_psbt(w, (_idx - hp_base) as usize) {
+            return (Input::Psbt { psbt: b, idx: 0, desc: String::new() }, "preimage-record-length");
         }
     }
     if _idx == N_PSBT_DEEP {
